@@ -150,8 +150,29 @@ def _plain(v):
     return v
 
 
+REFUSED = [('as', [['ok', 'nul\0inside']]), ('a(s)', [[['x\0']]]), ('aai', [[[1, 2 ** 40]]]), ('(a{sv})', [[{'k': object()}]]),
+           ('a(yo)', [[[1, 'not a path']]]), ('aas', [[['a'], 5]]), ('(i(i(is)))', [[1, [2, [3, 'x\0']]]]),
+           ('a{s(ai)}', [{'k': [['notint']]}]), ('av', [[object()]]), ('a(ii)', [[[1]]])]
+
+
+def refusals(ctx, rounds):
+    """Values that do NOT conform (an embedded NUL, a number out of range, a wrong shape - all inside containers) are
+    refused; what happens to them is not judged here, but a refusal must leave nothing behind that changes how conforming
+    values are encoded afterwards."""
+    n = 0
+    for _ in range(rounds):
+        for sig, vals in REFUSED:
+            for little in (True, False):
+                try:
+                    M.marshal(sig, vals, 0, little)
+                except Exception:
+                    n += 1
+    ctx.count('refused_encodes', n)
+
+
 def run(ctx):
     install_monitors()
+    refusals(ctx, 4)
     ctx.rule = ('bounded-exhaustive: every valid signature over alphabet %r up to length %d x 2 byte orders x offsets '
                 '0..7 (longer ones with one order/offset each), boundary-biased values; random: grammar-derived '
                 'signatures to the nesting limits with long strings/arrays, offsets to 64. distinct_nontrivial = '
@@ -167,6 +188,8 @@ def run(ctx):
             round_trip(ctx, sig, tv, little, off, r,
                        {'stream': 'enum', 'sig': sig, 'idx': idx, 'little': little, 'off': off})
             nenum += 1
+        if idx % 997 == 0:
+            refusals(ctx, 1)
         if ctx.stop_early() or (nenum % 512 == 0 and ctx.out_of_time()):
             break
     ctx.count('enumerated_cases', nenum)
